@@ -105,6 +105,8 @@ class RunBundler:
         # a seq_num counter per stream
         self._sequence_counters: dict[Any, int] = dict()  # noqa: C408
         self._sequence_counters_copy: dict[Any, int] = dict()  # for if we redo data-points  # noqa: C408
+        # streams whose events are never re-taken after a rewind (monitors, interruptions)
+        self._no_rewind_streams: set[Any] = set()
         self._monitor_params: dict[Subscribable, tuple[Callback, dict]] = dict()  # noqa: C408  # cache of {obj: (cb, kwargs)}
         # a cache of stream_resource uid to the data_keys that stream_resource collects for
         self._stream_resource_data_keys: dict[str, Iterable[str]] = dict()  # noqa: C408
@@ -153,6 +155,7 @@ class RunBundler:
                 name="interruptions",
                 data_keys={"interruption": dk},
             )
+            self._no_rewind_streams.add("interruptions")
             self._interruptions_desc = descriptor_bundle.descriptor_doc
             self._interruptions_compose_event = descriptor_bundle.compose_event
             await self.emit(DocumentNames.descriptor, self._interruptions_desc)
@@ -437,6 +440,7 @@ class RunBundler:
         await self._ensure_cached(obj)
 
         stream_bundle = await self._prepare_stream(name, {obj: self._describe_cache[obj]})
+        self._no_rewind_streams.add(name)
         compose_event = stream_bundle[1]
 
         def emit_event(readings: Optional[dict[str, Reading]] = None, *args, **kwargs):
@@ -482,8 +486,12 @@ class RunBundler:
             self.emit_sync(DocumentNames.event, doc)
 
     def rewind(self):
+        # Events of monitors and interruption records emitted since the checkpoint are not
+        # re-taken, so the numbering of their streams must go on rather than be rolled back.
+        keep = {k: v for k, v in self._sequence_counters.items() if k in self._no_rewind_streams}
         self._sequence_counters.clear()
         self._sequence_counters.update(self._sequence_counters_copy)
+        self._sequence_counters.update(keep)
         # make sure we do not forget about streams we roll back to the
         # very beginning of
         for desc_key in self._descriptor_objs:
